@@ -58,4 +58,21 @@ theorem collect_quiet_after_cancel_partial (p : Proj) (hnd : (names p).Nodup) (i
   have h2 := no_new_visits_after_cancel_partial hg hr hc hleft' ls s' hrun
   exact ⟨h1.1, h2.2.2.1, h2.2.2.2⟩
 
+/-- **the caller is never refused**, for the graph of every accepted project (both directions): `post` is the converse
+of `pre` there (`collect_walk_graph`), which discharges the hypothesis of `caller_never_refused` -/
+theorem collect_caller_never_refused (p : Proj) (hnd : (names p).Nodup) (inverse : Bool) (maxc : Int) (after : List Name)
+    {g : Graph} {lim : Option Nat} (h : plan p inverse maxc after = .walk g lim) {s : St} (hr : Reach g lim s)
+    (todo : List V) (v : V) :
+    (s.m = some ⟨todo, .ready v⟩ → step? g lim s (.ready .M) = some (putSched s .M (some ⟨todo, .enter v⟩))) ∧
+    (s.m = some ⟨todo, .enter v⟩ → step? g lim s (.enter .M) =
+      some (putSched { s with status := setStatus s.status v .entered } .M (some ⟨todo, .spawn v⟩))) := by
+  have ⟨hg, _, hpre, hpost, _⟩ := collect_walk_graph p hnd inverse maxc after h
+  refine caller_never_refused hg (fun v u hu => ?_) hr todo v
+  have := (hpost v u).mp hu
+  exact (hpre u v).mpr (by cases inverse <;> simpa using this)
+
+/-- non-vacuity of `collect_order_transitive`: in the chain 2 → 1 → 0, service 2 depends on 0 through 1 -/
+example : DependsVia chain3 (fun _ => True) 2 0 :=
+  .cons (m := 1) (by decide) trivial (.one (by decide))
+
 end CV.TravProj
